@@ -42,11 +42,22 @@ def operands():
     for sn in SERIES:
         for un in ("kg", "g", "hour", "dimensionless", "percent", "GB"):
             ops[f"h({sn},{un})"] = (lambda sn=sn, un=un: mk_series(SERIES[sn], UNITS[un]))
+    # operands with a past: displayed / unit read, then converted in place to another unit of the same dimension (what update
+    # rules do with .to(...)); physically the same quantity, so every operator contract applies unchanged
+    def aged(make, unit2):
+        def f():
+            x = make(); str(x); getattr(x, "unit", None); repr(getattr(x, "value", None))
+            y = x.to(unit2)
+            return y if y is not None else x
+        return f
+    for base, u2 in (("h(base,kg)", "g"), ("h(gap_a,GB)", "MB"), ("h(negative,hour)", "min"), ("h(fraction,dimensionless)", "percent"),
+                     ("q(1.5 kg)", "g"), ("q(-2 GB)", "MB"), ("q(1.5 percent)", "dimensionless")):
+        ops[f"{base}~{u2}"] = aged(ops[base], getattr(u, u2))
     return ops
 
 
-BINARY = ["__add__", "__radd__", "__sub__", "__rsub__", "__mul__", "__rmul__", "__truediv__", "__rtruediv__", "__eq__", "__lt__", "__gt__"]
-UNARY = ["ceil", "abs", "max", "sum", "mean", "copy", "__neg__", "__copy__"]
+BINARY = ["__add__", "__radd__", "__sub__", "__rsub__", "__mul__", "__rmul__", "__truediv__", "__rtruediv__", "__eq__", "__lt__", "__gt__", "__round__"]
+UNARY = ["ceil", "abs", "max", "min", "sum", "mean", "copy", "__neg__", "__copy__"]
 
 
 def to_sym(I, x, units, tag):
@@ -58,7 +69,7 @@ def to_sym(I, x, units, tag):
         ph = z3.simplify(z3.RealVal(str(Fraction(float(x.value.magnitude)))) * un.f)     # exact: magnitude x literal factor
         return Expl("eq", Qty(ph, un), Label(True, tag), fresh_obj=False, source=None)
     if isinstance(x, ExplainableHourlyQuantities):
-        un = units.from_pint(x.unit)
+        un = units.from_pint(x.value.dtypes.iloc[0].units)      # read from the data itself, not through the class under test
         ff = z3.simplify(un.f); ff = Fraction(ff.numerator_as_long(), ff.denominator_as_long())
         d = {tick(t): Fraction(float(v)) * ff for t, v in zip(x.value.index, x.value["value"].values._data)}
         ks = sorted(d)
@@ -120,7 +131,7 @@ def real_view(r, units):
         return {"q": float(r.value.to_base_units().magnitude), "dim": units.dim_of(r.value)}
     if isinstance(r, ExplainableHourlyQuantities):
         s = r.value["value"].pint.to_base_units()
-        return {"hourly": {tick(t): float(v) for t, v in zip(r.value.index, s.values._data)}, "dim": units.dim_of(1 * r.unit)}
+        return {"hourly": {tick(t): float(v) for t, v in zip(r.value.index, s.values._data)}, "dim": units.dim_of(1 * r.value.dtypes.iloc[0].units)}
     return {"other": type(r).__name__}
 
 
@@ -156,6 +167,14 @@ def evaluate(method, names):
     c = ctx(); units, X = c["units"], c["X"]
     ops = operands()
     real_args = [ops[n]() for n in names]
+    if method in ("__eq__", "__lt__", "__gt__") and len(real_args) == 2 and all(isinstance(a, ExplainableQuantity) for a in real_args):
+        try:
+            pa, pb = (float(a.value.to_base_units().magnitude) for a in real_args)
+            # the same physical quantity written in two units differs by float noise after conversion: a strict comparison of the two
+            # is ill-conditioned in floats (assumption A-REAL), neither outcome is a departure from the contract
+            if real_args[0].value.units != real_args[1].value.units and abs(pa - pb) <= 1e-12 * max(abs(pa), abs(pb)) and (pa != 0 or pb != 0): return ("ret", None), ("outside-precondition", "ill-conditioned float comparison"), []
+        except Exception:
+            pass
     snap = [real_view(a, units) if not isinstance(a, (int, str)) else None for a in real_args]
     try:
         r = getattr(real_args[0], method)(*real_args[1:])
@@ -218,10 +237,10 @@ def run(tier, seed, procs=16):
     names = list(ops)
     recv = [n for n in names if n.startswith(("q(", "h(", "empty"))]
     if tier == "quick":
-        recv = [n for n in recv if "kg" in n or "dimensionless" in n or "percent" in n or n == "empty" or "GB" in n]
-        recv = [n for i, n in enumerate(recv) if not n.startswith("h(") or any(s in n for s in ("base", "gap_a", "negative"))]
+        recv = [n for n in recv if "kg" in n or "dimensionless" in n or "percent" in n or n == "empty" or "GB" in n or "~" in n]
+        recv = [n for i, n in enumerate(recv) if not n.startswith("h(") or any(s in n for s in ("base", "gap_a", "negative")) or "~" in n]
         others = [n for n in names if not n.startswith("h(") or any(s in n for s in ("base,", "shifted", "gap_b", "disjoint"))]
-        others = [n for n in others if not n.startswith("q(") or n.startswith("q(1.5") or n.startswith("q(0 kg")]
+        others = [n for n in others if not n.startswith("q(") or n.startswith("q(1.5") or n.startswith("q(0 kg") or "~" in n]
     else:
         others = names
     items = [(m, (a, b)) for m in BINARY for a in recv for b in others]
@@ -236,7 +255,7 @@ def run(tier, seed, procs=16):
         if r["status"] != "ok":
             viol.append({"signature": f"C09|{r['case']}|{r['status']}", "what": f"C09 {r['case']}: {r['status']}: {r['detail'][:250]}", "input": {"call": r["case"]}})
     return {"evaluations": len(res), "distinct_nontrivial": len(nontrivial),
-            "rule": "one case = one real method call receiver.method(other) on concrete operands (scalars in 7 units x 3 values, hourly series of 7 index shapes incl. shifted / disjoint / gapped x 6 units, Empty, 0, 3, a string); "
+            "rule": "one case = one real method call receiver.method(other) on concrete operands (scalars in 7 units x 3 values, hourly series of 7 index shapes incl. shifted / disjoint / gapped x 6 units, Empty, 0, 3, a string; plus operands with a past: displayed, then converted in place to another unit); "
                     "outcome (value on physical level, dimension, exception class, operands unchanged) compared with the operator contract evaluated on the same operands; "
                     "calls outside a contract's precondition are skipped",
             "samples": samples, "violations": viol, "exhaustive": tier == "thorough",
